@@ -52,13 +52,15 @@ fn render_led(items: &[Item], nl: &str, lead: bool) -> String {
             s.push_str(lead_text(k, items.len()));
         }
         // between a directive and its macro name: white space (one or several blanks and tabs)
-        let sp = if lead && k % 2 == 1 { " \t  " } else { " " };
+        // (a tab right behind the directive word as well), and blanks or tabs behind the last word of the line
+        let sp = if lead { [" ", " \t  ", "\t", "  ", "\t\t "][(k + items.len()) % 5] } else { " " };
+        let tr = if lead { ["", "\t", " ", "", " \t"][(k * 3 + items.len()) % 5] } else { "" };
         match it {
-            Item::Define(m) => s.push_str(&format!("#define{sp}{m}")),
-            Item::Ifdef(m) => s.push_str(&format!("#ifdef{sp}{m}")),
-            Item::Ifndef(m) => s.push_str(&format!("#ifndef{sp}{m}")),
-            Item::Else => s.push_str("#else"),
-            Item::Endif => s.push_str("#endif"),
+            Item::Define(m) => s.push_str(&format!("#define{sp}{m}{tr}")),
+            Item::Ifdef(m) => s.push_str(&format!("#ifdef{sp}{m}{tr}")),
+            Item::Ifndef(m) => s.push_str(&format!("#ifndef{sp}{m}{tr}")),
+            Item::Else => s.push_str(&format!("#else{tr}")),
+            Item::Endif => s.push_str(&format!("#endif{tr}")),
             Item::Marker(i) => s.push_str(&format!("def m{i};")),
         }
         s.push_str(nl);
@@ -343,21 +345,33 @@ fn embedded(case: &Case) -> Verdict {
         if at_top && !prev_is_comment && prev_complete && rng.chance(1, 3) {
             k += 1;
             regions += 1;
-            match rng.below(4) {
-                0 => out.push_str(&format!("#ifdef UNDEF_{k}\ndef DISABLED_{k} : NoSuchClass {{ int x = ; }}\nclass DISABLED_C{k} : ;\n#endif\n")),
+            let mut reg = String::new();
+            match rng.below(5) {
+                0 => reg.push_str(&format!("#ifdef UNDEF_{k}\ndef DISABLED_{k} : NoSuchClass {{ int x = ; }}\nclass DISABLED_C{k} : ;\n#endif\n")),
                 1 => {
-                    out.push_str(&format!("#ifdef UNDEF_{k}\ndef DISABLED_{k} : NoSuchClass;\n#else\ndef ENABLED_{k};\n#endif\n"));
+                    reg.push_str(&format!("#ifdef UNDEF_{k}\ndef DISABLED_{k} : NoSuchClass;\n#else\ndef ENABLED_{k};\n#endif\n"));
                     enabled.push(format!("ENABLED_{k}"));
                 }
                 2 => {
-                    out.push_str(&format!("#define DEF_{k}\n#ifdef DEF_{k}\ndef ENABLED_{k};\n#else\ndef DISABLED_{k} = ;\n#endif\n"));
+                    reg.push_str(&format!("#define DEF_{k}\n#ifdef DEF_{k}\ndef ENABLED_{k};\n#else\ndef DISABLED_{k} = ;\n#endif\n"));
+                    enabled.push(format!("ENABLED_{k}"));
+                }
+                // a conditional with both branches nested in a disabled region, declarations behind the inner
+                // #else and behind the inner #endif; the outer conditional has a branch of its own
+                3 => {
+                    reg.push_str(&format!("#ifdef UNDEF_{k}\n#ifdef X\ndef DISABLED_{k}a;\n#else\ndef DISABLED_{k}b;\nclass DISABLED_C{k} {{ int x = 1; }}\n#endif\ndef DISABLED_{k}c;\n#else\ndef ENABLED_{k};\n#endif\n"));
                     enabled.push(format!("ENABLED_{k}"));
                 }
                 _ => {
-                    out.push_str(&format!("#ifndef UNDEF_{k}\n#ifdef UNDEF_{k}\ninclude \"nowhere.td\"\n#else\ndef ENABLED_{k};\n#endif\n#else\n#ifndef X\ndef DISABLED_{k};\n#endif\n#endif\n"));
+                    reg.push_str(&format!("#ifndef UNDEF_{k}\n#ifdef UNDEF_{k}\ninclude \"nowhere.td\"\n#else\ndef ENABLED_{k};\n#endif\n#else\n#ifndef X\ndef DISABLED_{k};\n#endif\n#endif\n"));
                     enabled.push(format!("ENABLED_{k}"));
                 }
             }
+            // a tab where a blank may stand: behind the directive word, and at the end of a directive line
+            if rng.chance(1, 3) {
+                reg = reg.replace("#ifdef ", "#ifdef\t").replace("#ifndef ", "#ifndef \t").replace("#define ", "#define\t\t").replace("#else\n", "#else\t\n").replace("#endif\n", "#endif \t\n");
+            }
+            out.push_str(&reg);
         }
         out.push_str(line);
         let t = line.trim_start();
